@@ -10,13 +10,14 @@
 (* Values are abstract tags with the engine's PartialEq as Eq.                            *)
 EXTENDS Naturals, FiniteSets, Sequences, TLC, Json
 
-CONSTANTS MaxFacts, MaxOps,
+CONSTANTS MaxFacts, MaxOps, MemoDepth,
           KeyKind     \* "canon": repaired bucket key; "debug": the pinned Debug rendering (0.0 / -0.0 / NaN keyed by their text)
 
 (* i1 Integer(1), f1 Float(1.0), s1 String("1"), bt Boolean(true), st String("true"), arr Array([Integer(1)]),  *)
-(* null Null, z Float(0.0), nz Float(-0.0), nan Float(NaN); "none" = field absent                               *)
-Vals   == {"i1", "f1", "s1", "bt", "st", "arr", "null", "z", "nz", "nan"}
-XVals  == {"i1", "f1", "s1", "null", "z", "nz", "nan", "none"}      \* values generated for field x
+(* null Null, z Float(0.0), nz Float(-0.0), nan Float(NaN), tiny Float(1e-20) (non-zero, below machine epsilon),  *)
+(* i0 Integer(0); "none" = field absent                                                                          *)
+Vals   == {"i1", "f1", "s1", "bt", "st", "arr", "null", "z", "nz", "nan", "tiny", "i0"}
+XVals  == {"i1", "f1", "s1", "null", "z", "nz", "nan", "tiny", "i0", "none"}      \* values generated for field x
 YVals  == {"i1", "none"}
 Eq(a, b) == IF a = "nan" \/ b = "nan" THEN FALSE
             ELSE IF {a, b} \subseteq {"z", "nz"} THEN TRUE ELSE a = b
@@ -62,8 +63,11 @@ BRemove(i) == /\ m = "beta" /\ liveb' = liveb \ {i} /\ UNCHANGED <<m, facts, ind
               /\ last' = [op |-> "remove", i |-> i]
 Lookup(v) == {i \in liveb : BKey[i] = v}
 
-(* ---- memo: nodes 1..3, fact sets 1..6 (pairs that print alike but differ in type) ---- *)
-MEval(n, fs) == /\ m = "memo" /\ seen' = seen \cup {<<n, fs>>} /\ UNCHANGED <<m, facts, indexed, liveb, added>>
+(* ---- memo: nodes 1..NNodes (alpha tests, and/not, multifield contains), fact sets 1..NSets (pairs that print alike *)
+(* but differ in type; arrays differing in 0.0 / -0.0); MemoDepth distinct (node, fact set) pairs per behaviour        *)
+NNodes == 6
+NSets == 12
+MEval(n, fs) == /\ m = "memo" /\ (<<n, fs>> \in seen \/ Cardinality(seen) < MemoDepth) /\ seen' = seen \cup {<<n, fs>>} /\ UNCHANGED <<m, facts, indexed, liveb, added>>
                 /\ last' = [op |-> "evaluate", n |-> n, fs |-> fs]
 
 (* ---- concl: rule universe; rule r assigns field CF[r]; rule 5 is disabled ---- *)
@@ -80,7 +84,7 @@ Next == /\ nops' = nops + 1
            \/ \E x \in XVals, y \in YVals : AInsert(x, y)
            \/ \E f \in {"x", "y"} : ACreate(f) \/ ADrop(f)
            \/ \E i \in 1..5 : BAdd(i) \/ BRemove(i)
-           \/ \E n \in 1..3, fs \in 1..6 : MEval(n, fs)
+           \/ \E n \in 1..NNodes, fs \in 1..NSets : MEval(n, fs)
            \/ \E r \in 1..5 : CAdd(r) \/ CRemove(r)
 Spec == Init /\ [][Next]_vars
 
@@ -98,6 +102,6 @@ Reach_IndexedSpecialFloat == ~(m = "alpha" /\ "x" \in indexed /\ \E i, j \in DOM
 Bound == nops <= MaxOps
 View == <<m, facts, indexed, liveb, seen, added>>
 StateRec == [m |-> m, facts |-> facts, indexed |-> SetFn(indexed, {"x", "y"}), liveb |-> SetFn(liveb, 1..5),
-             seen |-> [n \in 1..3 |-> [fs \in 1..6 |-> <<n, fs>> \in seen]], added |-> SetFn(added, 1..5)]
+             seen |-> [n \in 1..NNodes |-> [fs \in 1..NSets |-> <<n, fs>> \in seen]], added |-> SetFn(added, 1..5)]
 Edge == PrintT(ToJson([s |-> StateRec, l |-> last', o |-> Obs', t |-> StateRec']))
 =========================================================================================
